@@ -172,8 +172,11 @@ def main(run):
                 for x, y in data[:-1]:
                     e.update_storage(x, y)
                 clock.reset()
-                ret = e.explain_one(data[-1][0], data[-1][1], n_inner_samples=override,
-                                    original_sage=(mode == "explain_one_original"), verbose=False)
+                if i % 3 == 1:            # optional arguments passed positionally in the documented order
+                    ret = e.explain_one(data[-1][0], data[-1][1], override, mode == "explain_one_original", False)
+                else:
+                    ret = e.explain_one(data[-1][0], data[-1][1], n_inner_samples=override,
+                                        original_sage=(mode == "explain_one_original"), verbose=False)
                 expl = data
                 upd = [ev for ev in clock.log if ev[0] == "storage.update"]
                 if len(upd) != 1 or upd[0][1] is not data[-1][0]:
@@ -251,7 +254,10 @@ def main(run):
                 upd_arg = rnd.choice([upd, np.bool_(upd), int(upd)])
                 replay["calls"].append({"ordinal": c, "force_explain": repr(force_arg), "update_storage": repr(upd_arg)})
                 clock.reset()
-                ret = e.explain_one(x, y, update_storage=upd_arg, force_explain=force_arg, verbose=False)
+                if (i + c) % 4 == 1:      # optional arguments passed positionally in the documented order
+                    ret = e.explain_one(x, y, None, upd_arg, force_arg, False)
+                else:
+                    ret = e.explain_one(x, y, update_storage=upd_arg, force_explain=force_arg, verbose=False)
                 log = list(clock.log)
                 if upd:
                     stored.append((x, y))
